@@ -385,7 +385,7 @@ class ListRec:
 class DictRec:
     """concrete: python dict key(hashable python const) -> SV, insertion ordered.
     symbolic: dom : Array(K,Bool), val : Array(K,sort) / per-field arrays, plus a size term"""
-    __slots__ = ("items", "ktype", "vtype", "dom", "val", "sym", "size", "farr", "over")
+    __slots__ = ("items", "ktype", "vtype", "dom", "val", "sym", "size", "farr", "over", "valsym")
 
     def __init__(self, items=None, ktype=("any",), vtype=("any",), dom=None, val=None, sym=None, size=None):
         self.items = items
@@ -397,6 +397,7 @@ class DictRec:
         self.size = size
         self.farr = {}
         self.over = []          # symbolic dict with non-primitive values: [(key term, value)] latest last
+        self.valsym = None      # values alias the value objects of another symbolic map (same key -> same object)
 
     @property
     def concrete(self):
@@ -407,6 +408,7 @@ class DictRec:
                     self.sym, self.size)
         r.farr = dict(self.farr)
         r.over = list(self.over)
+        r.valsym = self.valsym
         return r
 
 
